@@ -351,8 +351,16 @@ impl Debugger {
 
             Command::StepOver => {
                 Self::check_halt(instr)?;
-                self.status = Status::StepOver {
-                    return_addr: state.pc().wrapping_add(1),
+                // Only `JSR|JSRR|CALL` are stepped over; any other instruction (including a
+                // taken branch, which never reaches the following address) is a single step
+                let next_instr = state.mem(state.pc());
+                let is_call = next_instr >> 12 == 0x4 || (next_instr >> 12 == 0xD && (next_instr >> 10) & 0b11 == 0b11);
+                self.status = if is_call {
+                    Status::StepOver {
+                        return_addr: state.pc().wrapping_add(1),
+                    }
+                } else {
+                    Status::StepInto { count: 0 }
                 };
                 self.should_echo_pc = true;
             }
